@@ -99,24 +99,44 @@ fn small_st(rng: &mut Rng) -> ScalarType {
     ALL_ST[rng.weighted(&w)]
 }
 
-fn gen_keyed_table(rng: &mut Rng, n: usize, key_specs: &[ColSpec], key_names: &[String], extra_prefix: &str, masked: bool, key_pool: &[Vec<Vec<u128>>]) -> Table {
+fn gen_keyed_table(
+    rng: &mut Rng,
+    n: usize,
+    key_specs: &[ColSpec],
+    key_names: &[String],
+    extra_prefix: &str,
+    masked: bool,
+    key_pool: &[Vec<Vec<u128>>],
+    borrowed_names: &[(String, Option<(ScalarType, Vec<u64>)>)],
+    all_dead: bool,
+) -> Table {
     let mut cols = vec![];
     for (i, ks) in key_specs.iter().enumerate() {
         cols.push(ColSpec { name: key_names[i].clone(), st: ks.st, row_shape: ks.row_shape.clone() });
     }
-    let extra = rng.usize_below(3);
+    let extra = rng.usize_below(3).max(borrowed_names.len().min(2));
     for i in 0..extra {
         let st = small_st(rng);
         let row_shape = match rng.below(4) {
             0 => vec![1 + rng.below(3)],
             _ => vec![],
         };
+        // a payload column may carry the name of a key column of the OTHER table (legal when that key is paired with
+        // a differently named key column here)
+        if i < borrowed_names.len() {
+            let (name, spec) = borrowed_names[i].clone();
+            match spec {
+                Some((st, row_shape)) => cols.push(ColSpec { name, st, row_shape }),
+                None => cols.push(ColSpec { name, st, row_shape }),
+            }
+            continue;
+        }
         cols.push(ColSpec { name: format!("{}{}", extra_prefix, i), st, row_shape });
     }
     // shuffle column order (keys need not come first)
     rng.shuffle(&mut cols);
     let null_pos = rng.usize_below(cols.len() + 1);
-    let null: Vec<u8> = (0..n).map(|_| if rng.chance(3, 4) { 1 } else { 0 }).collect();
+    let null: Vec<u8> = (0..n).map(|_| if !all_dead && rng.chance(3, 4) { 1 } else { 0 }).collect();
     let mut masks: Vec<Vec<u8>> = cols.iter().map(|_| (0..n).map(|_| if masked && rng.chance(1, 6) { 0 } else { 1 }).collect()).collect();
     // choose distinct key tuples for rows: indices into key_pool, unique per live row
     let mut avail: Vec<usize> = (0..key_pool.len()).collect();
@@ -228,8 +248,23 @@ pub fn gen_join_case(rng: &mut Rng, max_rows: usize) -> JoinCase {
     let names0: Vec<String> = (0..nk).map(|i| format!("k{}", i)).collect();
     // second table: same header names or different ones
     let names1: Vec<String> = (0..nk).map(|i| if rng.chance(1, 2) { format!("k{}", i) } else { format!("j{}", i) }).collect();
-    let t0 = gen_keyed_table(rng, n0, &key_specs, &names0, "p", masked, &key_pool);
-    let t1 = gen_keyed_table(rng, n1, &key_specs, &names1, "q", masked, &key_pool);
+    // payload columns of the first table named like a (differently named) key column of the second table
+    // (half of the time with the type of that key column as well)
+    let borrowed: Vec<(String, Option<(ScalarType, Vec<u64>)>)> = if rng.chance(1, 3) {
+        names1
+            .iter()
+            .enumerate()
+            .filter(|(_, h)| !names0.contains(h))
+            .map(|(i, h)| (h.clone(), if rng.chance(2, 3) { Some((key_specs[i].st, key_specs[i].row_shape.clone())) } else { None }))
+            .collect()
+    } else {
+        vec![]
+    };
+    // a table without any live row now and then (fast paths for "nothing to match")
+    let dead0 = rng.chance(1, 14);
+    let dead1 = rng.chance(1, 10);
+    let t0 = gen_keyed_table(rng, n0, &key_specs, &names0, "p", masked, &key_pool, &borrowed, dead0);
+    let t1 = gen_keyed_table(rng, n1, &key_specs, &names1, "q", masked, &key_pool, &[], dead1);
     let keys: Vec<(String, String)> = names0.into_iter().zip(names1.into_iter()).collect();
     JoinCase { t0, t1, join_t, masked, keys }
 }
